@@ -245,6 +245,9 @@ DIRECTED = [
     (0, [("clone_r", 0), ("recv", 0), ("step", 2), ("close_r", 1), ("step", 2), ("send_nowait", 0), ("step", 2)]),
     (0, [("recv", 0), ("step", 2), ("cancel", 0), ("send", 0), ("step", 1), ("recv_nowait", 0), ("step", 3)]),
     (2, [("send_nowait", 0), ("send_nowait", 0), ("send", 0), ("send", 0), ("step", 2), ("recv", 0), ("recv", 0), ("recv", 0), ("recv", 0), ("step", 4)]),
+    # the head receiver is cancelled in the very cycle in which two items are sent: the next receiver gets the first item
+    (1, [("recv", 0), ("recv", 0), ("step", 2), ("cancel", 0), ("send_nowait", 0), ("send_nowait", 0), ("step", 3), ("recv_nowait", 0), ("step", 2)]),
+    (2, [("recv", 0), ("recv", 0), ("recv", 0), ("step", 2), ("cancel", 0), ("cancel", 1), ("send_nowait", 0), ("send_nowait", 0), ("step", 3), ("recv_nowait", 0), ("step", 2)]),
 ]
 KINDS = ["send", "recv", "send_nowait", "recv_nowait", "clone_s", "clone_r", "close_s", "close_r", "cancel", "step", "step"]
 
